@@ -323,6 +323,7 @@ def run_c09(ctx):
         ctx.violations += judge_c09(ctx, cfg, gen.depth_docs(ctx.rng) + gen.number_literals(ctx.rng, 300))
         streams = list(stream_inputs(ctx, 4000 if ctx.tier == 'quick' else 40000))
         ctx.violations += judge_stream_sources(ctx, cfg, streams)
+    typed_part(ctx, 'run_c09_typed')
 
 # ================================================================== C10: truncation => Eof at the cut
 def c10_class(p, e, endpos):
@@ -399,6 +400,7 @@ def run_c10(ctx):
             ctx.sample({'doc_hex': hx(d), 'cfg': cfg, 'checked': 'every proper prefix'})
         space = list(gen.enum_tokens(4 if ctx.tier == 'thorough' else 3)) + list(gen.enum_tokens(5, gen.STRUCT_TOKENS + [b'.', b'e', b'0', b'\\u00e9', b'tru'], 4))
         ctx.violations += judge_c10_space(ctx, cfg, space)
+    typed_part(ctx, 'run_c10_typed')
 
 # ================================================================== C12: streams
 def stream_inputs(ctx, n):
@@ -527,6 +529,17 @@ def writer_faults(ctx, cfg):
     del ctx.violations[before:]
     return new
 
+def typed_part(ctx, fn):
+    """typed-target half of a property, from the typed development (universal DeserializeSeed); violations are appended to ctx.violations"""
+    try:
+        from checks import typed as T
+    except ImportError:
+        ctx.count('typed targets: development not integrated')
+        return
+    f = getattr(T, fn, None)
+    if f is not None:
+        f(ctx)
+
 def run_c13(ctx):
     ctx.rule = ('reader side: for generated documents (valid and invalid) a reader that fails persistently with each of several ErrorKinds once k bytes were delivered, '
                 'for every k in 0..=len, under chunkings 1/3/64/pseudo-random with Interrupted interleaved (all must agree), Value and IgnoredAny targets; outcome must equal '
@@ -622,6 +635,8 @@ def run_c14(ctx):
             items = a.split(' ')
             if cut_at_error(a) != cut_at_error(m) or not all(x.startswith('Va(') for x in items[:5]) or 'RecLimit' not in items[5]:
                 ctx.violations.append({'what': 'depth-budget-not-restored', 'cfg': cfg, 'input': hx(stream), 'expected': m, 'actual': a, 'shrinkable': False})
+        if cfg == ctx.cfgs[-1]:
+            typed_part(ctx, 'run_c14_typed')
         if cfg == 'ud':
             d = b'[' * 3000 + b']' * 3000
             outs = ctx.impl(cfg, ['pv %s b %s' % (ctx.letters(cfg, True), hx(d))])
